@@ -228,6 +228,8 @@ class World(object):
         self.outcome_rules = list(case.get('outcomes') or [])
         self.dropped = []
         self.msg_filter = None      # callable(msg) -> 'drop' | None
+        self.ack_fault = None       # callable(msg) -> True: delivered, but
+        #                             the sender sees a transport error
         self.stats = {'integrity_needed': False, 'clock_moves': 0}
         self.ctx = boot.default_ctx(case.get('project', 'p1'))
         self.overrides = []
@@ -414,6 +416,15 @@ class World(object):
                 return None
         cur = self.coop.current()
         u = self.spawn_delivery(msg)
+        if self.ack_fault is not None and not msg.call and \
+                self.ack_fault(msg):
+            # the message reached the bus, its confirmation did not reach
+            # the sender (connection reset while publishing)
+            self.rec.emit('FAULT', fault='ack-lost', method=msg.method,
+                          brief=msg.brief())
+            raise ConnectionResetError(
+                'connection to the message bus was reset while "%s" was '
+                'being confirmed' % msg.method)
         if msg.call:
             if cur is None:
                 raise RuntimeError('sync_call outside of a unit')
